@@ -1353,3 +1353,81 @@ Theorem interleaving_greedy cfg lim ts l :
 Proof.
   intros F G Hi Hf. apply greedy_never_exceeds_by_try_grow; auto. eapply interleaving_forallb; eauto.
 Qed.
+
+(* ------------------------------------------------------------------ the kind and limit of the bottom pool never change *)
+Inductive kind := KUnbounded | KGreedy (l : N) | KFair (l : N).
+Definition pool_kind (p : pool) : kind :=
+  match pool_base p with
+  | PGreedy l _ => KGreedy l
+  | PFair l _ _ _ => KFair l
+  | _ => KUnbounded
+  end.
+
+Lemma kind_grow p sp cid n : pool_kind (pool_grow p sp cid n) = pool_kind p.
+Proof. unfold pool_kind. induction p; cbn [pool_grow pool_base peak_record]; auto. destruct sp; reflexivity. Qed.
+Lemma kind_shrink p sp cid n p' : pool_shrink p sp cid n = Some p' -> pool_kind p' = pool_kind p.
+Proof.
+  unfold pool_kind. revert p'. induction p; cbn [pool_shrink pool_base]; intros p' H.
+  - destruct (n <=? used); inversion H; reflexivity.
+  - destruct (n <=? used); inversion H; reflexivity.
+  - destruct sp; [destruct (n <=? spillable)|destruct (n <=? unspillable)]; inversion H; reflexivity.
+  - destruct (pool_shrink p sp cid n); [|discriminate]. destruct (tr_shrink cid n tracked); inversion H.
+    cbn [pool_base]. now apply IHp.
+  - destruct (pool_shrink p sp cid n); [|discriminate]. destruct (n <=? reserved); inversion H.
+    cbn [pool_base]. now apply IHp.
+Qed.
+Lemma kind_register p cid sp : pool_kind (pool_register p cid sp) = pool_kind p.
+Proof. unfold pool_kind. induction p; cbn [pool_register pool_base]; auto. destruct sp; reflexivity. Qed.
+Lemma kind_unregister p cid sp p' : pool_unregister p cid sp = Some p' -> pool_kind p' = pool_kind p.
+Proof.
+  unfold pool_kind. revert p'. induction p; cbn [pool_unregister pool_base]; intros p' H; try (now inversion H).
+  - destruct sp; [destruct (1 <=? num_spill)|]; inversion H; reflexivity.
+  - destruct (pool_unregister p cid sp); inversion H. cbn [pool_base]. now apply IHp.
+  - destruct (pool_unregister p cid sp); inversion H. cbn [pool_base]. now apply IHp.
+Qed.
+Lemma kind_reset p : pool_kind (pool_reset_peak p) = pool_kind p.
+Proof. unfold pool_kind. induction p; cbn [pool_reset_peak pool_base]; auto. Qed.
+
+Lemma step_kind s o : pool_kind (st_pool (fst (step s o))) = pool_kind (st_pool s).
+Proof.
+  destruct o; step_cases; auto using kind_grow, kind_register, kind_reset;
+    try match goal with
+        | E : pool_try_grow _ _ _ _ _ = Some _ |- _ => apply try_grow_is_grow in E; subst; apply kind_grow
+        end; eauto using kind_shrink.
+  (* drop *)
+  assert (pool_kind p = pool_kind (st_pool s)).
+  { destruct (r_size r =? 0); [now inversion Heqo0|eauto using kind_shrink]. }
+  destruct b; [erewrite kind_unregister; eauto|inversion Heqo2; subst; assumption].
+Qed.
+
+Lemma run_kind s h : pool_kind (st_pool (run s h)) = pool_kind (st_pool s).
+Proof. revert s. induction h as [|o h IH]; intros s; cbn [run]; [reflexivity|]. now rewrite IH, step_kind. Qed.
+
+Lemma fair_limit_kind p : fair_limit p = match pool_kind p with KFair l => Some l | _ => None end.
+Proof. unfold fair_limit, pool_kind. destruct (pool_base p); reflexivity. Qed.
+Lemma greedy_limit_kind p : greedy_limit p = match pool_kind p with KGreedy l => Some l | _ => None end.
+Proof. unfold greedy_limit, pool_kind. destruct (pool_base p); reflexivity. Qed.
+
+Theorem fair_grant_within_share_reachable cfg h o rid n l s' r' :
+  fresh cfg = true -> fair_limit cfg = Some l ->
+  let s := run (init cfg) h in
+  fallible_growth s o = Some (rid, n) ->
+  step s o = (s', Done) -> find_resv rid (st_resvs s') = Some r' ->
+  if r_spill r'
+  then 1 <= num_spillable (st_regs s') /\
+       r_size r' <= (l - sum_unspillable (st_resvs s')) / num_spillable (st_regs s')
+  else n = 0 \/ total s' <= l.
+Proof.
+  intros F Fl s. apply fair_grant_within_share.
+  - apply run_inv, init_inv, F.
+  - unfold s. rewrite fair_limit_kind, run_kind. cbn [init st_pool]. now rewrite <- fair_limit_kind.
+Qed.
+
+Theorem greedy_grant_within_limit_reachable cfg h o rid n l s' :
+  greedy_limit cfg = Some l ->
+  let s := run (init cfg) h in
+  fallible_growth s o = Some (rid, n) -> step s o = (s', Done) -> total s' <= l.
+Proof.
+  intros G s. apply greedy_grant_within_limit.
+  unfold s. rewrite greedy_limit_kind, run_kind. cbn [init st_pool]. now rewrite <- greedy_limit_kind.
+Qed.
